@@ -99,7 +99,8 @@ def harness(params, prefix, part):
         s.spawn(reactor(1), 'reactorB')
         if params.get('timer'):
             s.spawn(timer, 'timer')
-        s.spawn(executor, 'executor')
+        if 'overloaded' in kinds or params.get('spec_in_race'):
+            s.spawn(executor, 'executor')        # retries / speculative sends need an executor worker
         if params.get('late'):
             s.spawn(client, 'client')
         s.run()
